@@ -1,5 +1,5 @@
 """kaniprep: prepare a scratch copy of /repo for Kani (DESIGN 3.1).
-  P1  `RwLock` imported from std::sync  -> crate::verif_sync::RwLock      (all non-test `use` items)
+  P1  `RwLock` and `Arc` imported from std::sync  -> crate::verif_sync::{RwLock, Arc}   (all non-test `use` items)
   P2  `HashMap` imported from std::collections -> crate::verif_sync::HashMap   (stream_controller.rs, subjects/subject.rs only)
   P4  harness modules appended:  kani/in_<file>.rs  -> `#[cfg(kani)] mod verif_k { use super::*; ... }` at the end of that
       file (private-field access), kani/common.rs -> crate-level `#[cfg(kani)] pub mod verif_kani`
@@ -103,11 +103,19 @@ def prepare(repo, dst):
         if k:
             new = 'use crate::verif_sync::RwLock;\n' + new
             n_rw += k
+        new, ka = drop_from_use(new, 'Arc')
+        if ka:
+            new = 'use crate::verif_sync::Arc;\n' + new
         if rel in P2_FILES:
             new, k2 = drop_from_use(new, 'HashMap')
             if not k2:
                 raise PrepError('anchor lost: HashMap import in %s' % rel)
-            new = 'use crate::verif_sync::HashMap;\n' + new
+            # stream_controller: Vec-based map (values are FunctionWrappers); subject: fixed-capacity array map (values are
+            # Observers) - each measured to be the cheaper encoding for CBMC in its place
+            if rel.endswith('subject.rs'):
+                new = 'use crate::verif_sync::ArrayHashMap as HashMap;\n' + new
+            else:
+                new = 'use crate::verif_sync::HashMap;\n' + new
         if new != src:
             open(path, 'w').write(new)
     if n_rw == 0:
